@@ -12,7 +12,16 @@ SEQ_TEXT = ("TLC explores the TLA+ mirror of the Sequence scheduler (spec/Pulser
 SEQ_NOTE = ("bounded: call lattice, depth and device family of the configurations listed in the evidence; fall times and EOM "
             "off-detunings are numeric oracles read from the tree at start; trusted: TLC, the projection harness/project.py")
 
+FUNC_TEXT = ("The pure function behind the property is transcribed into an explicit TLA+ reference over an exactly "
+             "representable input lattice; TLC enumerates the lattice exhaustively, checks the laws of the reference "
+             "itself as invariants and prints the expected result of every point; every enumerated point is then "
+             "executed on the working tree and compared (one implementation test per TLC state).")
+FUNC_NOTE = ("bounded: the lattice stated in the evidence (rule); trusted: TLC, the mapping from lattice integers to "
+             "floats, numpy comparisons within the stated tolerances")
+
 CLAIMED = {
+    "C19": dict(technique="TLA+ reference enumerated by TLC, every state executed on the implementation", ref="5 C19",
+                text=FUNC_TEXT, note=FUNC_NOTE, engine="tlc-func"),
     "C01": dict(technique="TLA+ model checking (TLC) + spec-to-code replay + trace validation", ref="5 C01"),
     "C07": dict(technique="TLA+ model checking (TLC) + spec-to-code replay + trace validation", ref="5 C07"),
     "C13": dict(technique="TLA+ model checking (TLC) + spec-to-code replay + trace validation", ref="5 C13"),
@@ -31,7 +40,7 @@ for pid, c in sorted(CLAIMED.items()):
         "thorough_cmd": f"./check {pid} --tier thorough",
         "evidence_file": f"/verif/evidence/{pid}.json",
         "replay_cmd_template": f"./check {pid} --replay {{path}}",
-        "engine": "tlc-seq",
+        "engine": c.get("engine", "tlc-seq"),
         "level_claimed": {"category": "model_checking", "text": c.get("text", SEQ_TEXT), "design_ref": c["ref"]},
         "level_note": c.get("note", SEQ_NOTE),
         "technique": c["technique"],
@@ -47,8 +56,11 @@ m = {
               "enable": "no repository hooks are needed: checks import the working tree (PYTHONPATH=/repo/pulser-core:/repo/pulser-simulation) in a fresh interpreter and read the abstract state from the live objects",
               "baseline_off_cmd": "cd /repo && /venv/bin/python -m pytest -ra -q -p no:cacheprovider --timeout=900 --continue-on-collection-errors",
               "source_commits": [], "add_only": True},
-    "engines": [{"name": "tlc-seq", "path": "/verif/spec/PulserSeq.tla",
-                 "serves_properties": sorted(CLAIMED),
+    "engines": [{"name": "tlc-func", "path": "/verif/spec/Layout.tla",
+                 "serves_properties": sorted(p for p, c in CLAIMED.items() if c.get("engine") == "tlc-func"),
+                 "kind_free_text": "TLA+ reference functions enumerated by TLC over exact lattices; each TLC state becomes an implementation test"},
+                {"name": "tlc-seq", "path": "/verif/spec/PulserSeq.tla",
+                 "serves_properties": sorted(p for p, c in CLAIMED.items() if c.get("engine", "tlc-seq") == "tlc-seq"),
                  "kind_free_text": "explicit TLA+ specification checked by TLC, bound to the code by replay of TLC behaviours and TLC validation of recorded traces"}],
     "checks": checks,
     "notes": "see DESIGN.md; known findings in known_findings.json; seeded changes in seeded/",
